@@ -976,10 +976,68 @@ impl Drop for ShutdownProbe {
     }
 }
 
+/// `metrics_io_stream(stream)`: the reporter builds its own `BackgroundQueue` around the stream (the writer thread is
+/// one more simulated thread) and shuts it down through the queue's join handle. The stream sees readout k some time
+/// after it was taken, so the windows are opened by the time source instead: every readout reads the wall clock
+/// exactly once, hence all reads of readout k+1 happen after the k-th clock read.
+struct ReadoutStream {
+    log: BLog,
+    n: u64,
+}
+
+impl metrique_writer::stream::EntryIoStream for ReadoutStream {
+    fn next(&mut self, entry: &impl Entry) -> Result<(), metrique_writer::stream::IoStreamError> {
+        self.n += 1;
+        let out = replay_entry(entry);
+        self.log.log(BK::ReadEnd { rid: self.n, out });
+        detsim::yield_point();
+        Ok(())
+    }
+    fn flush(&mut self) -> std::io::Result<()> {
+        detsim::yield_point();
+        Ok(())
+    }
+}
+
+impl Drop for ReadoutStream {
+    fn drop(&mut self) {
+        self.log.log(BK::Note("sink_shutdown"));
+    }
+}
+
+struct StampTime {
+    inner: SimTime,
+    log: BLog,
+    n: std::sync::atomic::AtomicU64,
+    wall_ns: i64,
+}
+
+impl std::fmt::Debug for StampTime {
+    fn fmt(&self, f: &mut std::fmt::Formatter<'_>) -> std::fmt::Result {
+        f.write_str("StampTime")
+    }
+}
+
+impl metrique_timesource::Time for StampTime {
+    fn now(&self) -> std::time::SystemTime {
+        let k = self.n.fetch_add(1, Ordering::SeqCst) + 1;
+        self.log.log(BK::ReadBegin { rid: k + 1, wall_ns: self.wall_ns });
+        self.inner.now()
+    }
+    fn instant(&self) -> std::time::Instant {
+        self.inner.instant()
+    }
+}
+
 fn reporter_main(plan: &Value, log: BLog) {
     let wall_ns = 1_700_000_000_000_000_000i64 + ji(plan, "wall_off", 0);
     let wall = Arc::new(AtomicI64::new(wall_ns));
-    let _ts = set_time_source(TimeSource::custom(SimTime::plain(wall.clone())));
+    let io_stream = jb(plan, "io_stream", false);
+    let _ts = if io_stream {
+        set_time_source(TimeSource::custom(StampTime { inner: SimTime::plain(wall.clone()), log: log.clone(), n: std::sync::atomic::AtomicU64::new(0), wall_ns }))
+    } else {
+        set_time_source(TimeSource::custom(SimTime::plain(wall.clone())))
+    };
     let rt = tokio::runtime::Builder::new_current_thread().enable_time().start_paused(true).build().expect("runtime");
     let interval = std::time::Duration::from_millis(ju(plan, "interval_ms", 60_000));
     let sink = ReadoutSink { log: log.clone(), n: Arc::new(std::sync::atomic::AtomicU64::new(0)), wall: wall_ns };
@@ -992,7 +1050,9 @@ fn reporter_main(plan: &Value, log: BLog) {
             .emit_zero_counters(jb(plan, "emit_zero", false))
             .metrics_publish_interval(interval)
             .metrics_rs_version::<dyn metrics::Recorder>();
-        let (reporter, rec) = if sync_handle {
+        let (reporter, rec) = if io_stream {
+            b.metrics_io_stream(ReadoutStream { log: log.clone(), n: 0 }).build_without_installing()
+        } else if sync_handle {
             b.metrics_sink((sink.clone(), ShutdownProbe { appended: sink.n.clone(), at_drop: at_drop.clone() })).build_without_installing()
         } else {
             b.metrics_sink_async_shutdown(sink.clone(), async move {
@@ -1037,7 +1097,7 @@ fn reporter_main(plan: &Value, log: BLog) {
             reporter.flush().await;
         }
         reporter.shutdown().await;
-        if sync_handle {
+        if sync_handle && !io_stream {
             log.log(BK::ShutdownProbe { at_drop: at_drop.load(Ordering::SeqCst), total: sink.n.load(Ordering::SeqCst) });
             log.log(BK::Note("sink_shutdown"));
         }
@@ -1065,6 +1125,8 @@ pub fn gen_c20_reporter(rng: &mut Rng, tier: Tier) -> Value {
     plan["wall_off"] = json!(rng.below(1_000_000_000_000));
     plan["flush_before_shutdown"] = json!(rng.chance(0.3));
     plan["sync_handle"] = json!(rng.chance(0.4));
+    // a quarter of the runs: the reporter owns a BackgroundQueue around a stream (`metrics_io_stream`)
+    plan["io_stream"] = json!(rng.chance(0.25));
     plan.as_object_mut().unwrap().remove("reporter");
     plan
 }
@@ -1106,6 +1168,9 @@ impl Scenario for BridgeReporter {
         let periodic = h.iter().filter(|e| matches!(e.k, BK::ReadEnd { .. })).count();
         if periodic >= 2 {
             r.probe("periodic_readout_by_real_reporter_task", periodic as u64 - 1);
+        }
+        if jb(plan, "io_stream", false) && periodic >= 1 {
+            r.probe("readout_through_reporter_owned_background_queue", periodic as u64);
         }
         // a run cut off by the step budget has no complete history to judge
         if !matches!(failure, Some(detsim::Failure::StepLimit { .. })) {
@@ -1150,7 +1215,7 @@ impl Scenario for BridgeReporter {
         r
     }
     fn probes(&self) -> Vec<&'static str> {
-        vec!["increment_during_readout", "record_during_readout", "gauge_update_during_readout", "periodic_readout_by_real_reporter_task", "sync_shutdown_handle"]
+        vec!["increment_during_readout", "record_during_readout", "gauge_update_during_readout", "periodic_readout_by_real_reporter_task", "sync_shutdown_handle", "readout_through_reporter_owned_background_queue"]
     }
     fn components(&self) -> Value {
         json!({
